@@ -111,6 +111,26 @@ def gen(rng, kind):
             "delta": delta, "const": const, "xpt": xpt, "improve_tcg": bool(rng.random() < 0.6), "convex": convex}
 
 
+def gen_improve(rng):
+    """the rarest path of the linearly constrained tangential solver: non-convex models (the truncated conjugate gradients
+    end on the trust-region boundary), several free dimensions, bounds of very different widths and inequality rows with
+    moderate slack, so that the boundary-improvement phase makes MORE THAN ONE rotation"""
+    n = int(rng.integers(3, 7))
+    m = int(rng.integers(1, 4))
+    g = rng.normal(size=n) * float(rng.choice([1.0, 1.0, 3.0]))
+    B = rng.normal(size=(n, n))
+    H = (B + B.T) * float(rng.choice([0.5, 1.0, 2.0])) if rng.random() < 0.7 else -(B @ B.T)
+    delta = float(rng.choice([0.5, 1.0, 2.0]))
+    xl = np.where(rng.random(n) < 0.4, -INF, -np.abs(rng.normal(size=n)) * delta * rng.choice([0.05, 0.5, 2.0], n))
+    xu = np.where(rng.random(n) < 0.4, INF, np.abs(rng.normal(size=n)) * delta * rng.choice([0.05, 0.5, 2.0], n))
+    aub = rng.normal(size=(m, n))
+    bub = np.abs(rng.normal(size=m)) * delta * rng.choice([0.2, 0.6, 1.5], m)
+    meq = int(rng.integers(0, 2)) if n >= 4 else 0
+    return {"kind": "constrained_tangential", "n": n, "g": g, "H": H, "xl": xl, "xu": xu, "aub": aub, "bub": bub,
+            "aeq": rng.normal(size=(meq, n)), "beq": np.zeros(meq), "delta": delta, "const": 0.0, "xpt": np.zeros((n, 1)),
+            "improve_tcg": True, "convex": False}
+
+
 def call(c):
     import cobyqa.subsolvers as S
     g, H = c["g"], c["H"]
